@@ -1,16 +1,6 @@
-"""C19 - rejected edits are atomic (bounded stand-in; E1 obligations are added by the heap engine)."""
-import time
-
-from ..core import Report
-from ..e3 import history
+"""C19 - see vf/props/graphprop.py and DESIGN.md section 4."""
+from . import graphprop
 
 
 def run(tier, seed):
-    t0 = time.time()
-    rep = Report("C19", tier, seed)
-    rep.level = "exploration"
-    history.run_histories(rep, "C19", tier, seed, ("rejected-raises-and-changes-nothing", "failed-request-changes-nothing"), with_queries=True)
-    rep.rule = ("every ill-formed request of the kinds listed in C19 (and every look-up) issued at every state reached by the bounded history exploration; "
-                "raw containers compared before/after")
-    rep.assumptions = ["bounded: universe of 4 atom identifiers, depth/walk bounds"]
-    return rep, t0
+    return graphprop.run("C19", tier, seed)
